@@ -7,6 +7,7 @@ count != entries, 10/11-byte integers, huge values in int-typed fields, unknown 
 Oracle: if the open succeeds every getter and the chunk iteration equal the reference parser (exact integers); if the
 reference says malformed the open must fail.
 """
+PROMOTE = True   # quick runs the former thorough bound (seconds); thorough goes deeper where a deeper bound is defined (ctx.deep)
 import itertools
 import core, zckref
 from zckref import Header, Chunk, enc_ci
